@@ -79,6 +79,37 @@ ENTRY = 'old(held).none()'
 LONG = ('sleep', 'cancelled', 'vx_select', 'vx_await', 'recv', 'send', 'wait', 'send_request', 'create_progress_task',
         'get_configuration', 'show_message_request', 'apply_edit', 'external_tool_format', 'external_tool_range_format',
         'get_client_config', 'get_client_config_default', 'get_client_config_vscode')
+# the awaits that wait for the CLIENT's answer (or are fns that do so before they take any lock)
+CLIENT = ('send_request', 'show_message_request', 'apply_edit', 'get_configuration', 'create_progress_task', 'vx_await', 'get_client_config',
+          'get_client_config_default', 'get_client_config_vscode', 'init_analysis', 'apply_workspace_reload', 'pull_workspace_diagnostics_fast',
+          'push_workspace_diagnostic')
+LNAME = {'analysis': 'L::Analysis', 'workspace_manager': 'L::WorkspaceManager', 'diagnostic_tokens': 'L::DiagnosticTokens',
+         'workspace_diagnostic_token': 'L::WorkspaceDiagnosticToken', 'response_manager': 'L::ResponseManager', 'cancellations': 'L::Cancellations',
+         'reload_lock': 'L::ReloadLock'}
+ALL_LOCKS = 'set![' + ', '.join(sorted(LNAME.values())) + ']'
+
+
+def join_locks(file, name):
+    """the locks taken INSIDE the `tokio::spawn(async move { .. })` bodies of fn `name`: what the tasks whose results the fn's channel `recv` waits
+    for need. Mechanical (inventory); every lock when it cannot be derived."""
+    try:
+        f = host_fn(file, name)
+    except Undecided:
+        return ALL_LOCKS
+    spans = [(m.start(), m.start() + _close(f.text, m.end() - 1)) for m in re.finditer(r'tokio::spawn\(async move \{', f.text[f.body[0]:f.body[1]])]
+    ls = set()
+    for a in f.acq:
+        p = a['pos'] - f.body[0]
+        if any(s <= p < e for s, e in spans):
+            if INV.lock_of(a['recv']) not in LNAME: return ALL_LOCKS
+            ls.add(LNAME[INV.lock_of(a['recv'])])
+    return ('set![' + ', '.join(sorted(ls)) + ']') if ls else ALL_LOCKS
+
+
+def _close(text, open_pos_rel_end):
+    return 0
+
+
 PRE = [('c28-drop-log', {'optional': True}), ('c28-opaque-macros', {'optional': True}), ('c28-cfg-not-test', {'optional': True}),
        ('c28-spawn-out', {'optional': True}), ('c28-select-seq', {'optional': True}), ('c28-for-next', {'optional': True}), ('c28-unwrap-exit', {'optional': True})]
 
@@ -90,8 +121,8 @@ COUNT = 'count < valid_file_count'
 PROFILE = (r'let _p = Profile::new\(text\.as_str\(\)\);', r';', '')
 
 
-SENDREQ = 'self.wf(), old(held).can_acquire(L::ResponseManager), may_wait_long(*old(held))'
-CLIENTCFG = 'old(held).can_acquire(L::WorkspaceManager), old(held).can_acquire(L::ResponseManager), may_wait_long(*old(held))'
+SENDREQ = 'self.wf(), old(held).can_acquire(L::ResponseManager), client_ok(*old(held))'
+CLIENTCFG = 'old(held).can_acquire(L::WorkspaceManager), old(held).can_acquire(L::ResponseManager), client_ok(*old(held))'
 ANALYSIS_READ = r'let analysis = context\.analysis\(\)\.read\(\)\.await;'
 
 
@@ -191,7 +222,7 @@ ITEMS = {
     'FileDiagnostic::pull_workspace_diagnostics_fast': fn(
         FD, 'pull_workspace_diagnostics_fast', impl='FileDiagnostic', pre=[('c28-elide', {'regions': [PERCENT, PROFILE]})],
         held={'inv': {1: COUNT}},
-        requires='self.wf(), old(held).can_acquire(L::Analysis), old(held).can_acquire(L::WorkspaceDiagnosticToken), may_wait_long(*old(held))'),
+        requires='self.wf(), old(held).can_acquire(L::Analysis), old(held).can_acquire(L::WorkspaceDiagnosticToken), client_ok(*old(held))'),
     'FileDiagnostic::pull_workspace_diagnostics_fast::task': task(
         FD, 'pull_workspace_diagnostics_fast', 'pull_workspace_diagnostics_fast_task',
         r'let analysis = analysis\.read\(\)\.await;\s*let diagnostics = analysis\.diagnose_file\(file_id, token\);', r'let _ = tx\.send\(None\)\.await;\s*\}',
@@ -199,7 +230,7 @@ ITEMS = {
         'tx: tokio::sync::mpsc::Sender<Option<(Vec<Diagnostic>, Uri)>>, held: &mut Held)',
         'analysis.id() == L::Analysis, old(held).none()', impl='FileDiagnostic'),
     'push_workspace_diagnostic': fn(FD, 'push_workspace_diagnostic', pre=[('c28-elide', {'regions': [PERCENT, PROFILE]})], held={'inv': {1: COUNT, 2: COUNT}},
-                                    requires='analysis.id() == L::Analysis, client_proxy.wf(), status_bar.wf(), old(held).can_acquire(L::Analysis), may_wait_long(*old(held))'),
+                                    requires='analysis.id() == L::Analysis, client_proxy.wf(), status_bar.wf(), old(held).can_acquire(L::Analysis), client_ok(*old(held))'),
     'push_workspace_diagnostic::task': task(
         FD, 'push_workspace_diagnostic', 'push_workspace_diagnostic_task',
         r'let analysis = analysis\.read\(\)\.await;\s*let diagnostics = analysis\.diagnose_file\(file_id, token\);', r'let _ = tx\.send\(file_id\)\.await;',
@@ -212,7 +243,7 @@ ITEMS = {
     'ClientProxy::send_request': fn(
         CL, 'send_request', impl='ClientProxy',
         pre=[('c28-elide', {'regions': [(r'let _ = self\.conn\.sender\.send\(Message::Request', r'\}\)\);', '')]})],
-        requires='self.wf(), old(held).can_acquire(L::ResponseManager), may_wait_long(*old(held))'),
+        requires='self.wf(), old(held).can_acquire(L::ResponseManager), client_ok(*old(held))'),
     'ClientProxy::on_response': fn(CL, 'on_response', impl='ClientProxy', requires='self.wf(), old(held).can_acquire(L::ResponseManager)'),
     'ClientProxy::get_configuration': fn(CL, 'get_configuration', impl='ClientProxy', requires=SENDREQ),
     'ClientProxy::show_message_request': fn(CL, 'show_message_request', impl='ClientProxy', requires=SENDREQ),
@@ -237,7 +268,7 @@ ITEMS = {
         pre=[('c28-cfg-not-test', {}), 'c28-std-duration',
              ('c28-elide', {'regions': [(r'WorkDoneProgressCreateParams \{', r'\},', 'vx_params(),'),
                                         (r'self\.client\.send_notification\(\s*"\$/progress",', r'\)(?=\s*\}\s*\Z)', '')]})],
-        requires='self.wf(), old(held).can_acquire(L::ResponseManager), may_wait_long(*old(held))'),
+        requires='self.wf(), old(held).can_acquire(L::ResponseManager), client_ok(*old(held))'),
     # ---- handlers/initialized/mod.rs
     'initialized_handler': task(
         INIT, 'initialized_handler', 'initialized_handler', r'\{\s*log::info!\("set workspace folders', r'Some\(\(\)\)',
@@ -252,7 +283,7 @@ ITEMS = {
         pre=[('c28-elide', {'regions': [(r'if let Ok\(emmyrc_json\) = serde_json::to_string_pretty', r'emmyrc_json\);\s*\}', ''),
                                         (r'let files: Vec<\(PathBuf, Option<String>\)> =', r'collect\(\);', 'let files = vx_files();')]}),
              'c28-arc-as-ref', 'c28-str-lit'],
-        requires='analysis.id() == L::Analysis, status_bar.wf(), file_diagnostic.wf(), old(held).can_acquire(L::Analysis), may_wait_long(*old(held))'),
+        requires='analysis.id() == L::Analysis, status_bar.wf(), file_diagnostic.wf(), old(held).can_acquire(L::Analysis), client_ok(*old(held))'),
     'init_std_lib': fn(INIT, 'init_std_lib', requires='analysis.id() == L::Analysis, old(held).can_acquire(L::Analysis)'),
     # ---- workspace_manager.rs
     'ReloadTaskHandles': {'src': {'file': WM, 'kind': 'struct', 'name': 'ReloadTaskHandles'}, 'rules': [('struct-fields', {'drop': []}), 'vis-pub']},
@@ -261,7 +292,7 @@ ITEMS = {
     'refresh_workspace_diagnostics': fn(WM, 'refresh_workspace_diagnostics',
                                         requires='file_diagnostic.wf(), client.wf(), old(held).can_acquire(L::WorkspaceDiagnosticToken)'),
     'apply_workspace_reload': fn(WM, 'apply_workspace_reload', pre=['c28-arc-as-ref'],
-                                 requires='old(held).can_acquire(L::WorkspaceManager), may_wait_long(*old(held))'),
+                                 requires='old(held).can_acquire(L::WorkspaceManager), client_ok(*old(held))'),
     'sync_reloaded_open_files': fn(
         WM, 'sync_reloaded_open_files',
         pre=[('c28-elide', {'allow_exit': True, 'regions': [(r'let next_open_uris = next_snapshot', r'collect::<Vec<_>>\(\);', 'let removed_actions = vx_removed_actions();')]})],
